@@ -12,7 +12,7 @@ HIST = ["dropped_length", "dropped_type", "mac1_fails", "static_does_not_open", 
         "replay_ts_not_newer", "flood", "initiation_accepted", "response_unaddressed", "response_wrong_state",
         "transcript_fails", "response_accepted", "tun_initiation", "tun_spacing_blocks", "tun_transport", "shift_hook",
         "restart", "ambiguous_flood_steps", "tun_unknown_peer", "valid_mac1_under_load_cookie_reply",
-        "under_load_toggles", "gate_or_mac1_fails_under_load"]
+        "under_load_toggles", "gate_or_mac1_fails_under_load", "concurrent_initiation_burst_one_leaves", "burst_blocked_by_spacing"]
 
 
 def executed(case):
@@ -41,7 +41,9 @@ class Prop:
             "superseded initiation, responses twice, reflected device initiations, random mixtures; under load (VerifForceUnderLoad): "
             "MAC1-invalid messages (covered/MAC1 bit flips, substitutions, length, type, foreign key) must stay silent, the unaltered one draws "
             "a cookie reply; receive side across Down/Up: answered initiation, restart, replay of the same bytes / older / equal / newer "
-            "timestamps from several addresses, response to a pre-restart initiation; device-emitted timestamps across a restart only in "
+            "timestamps from several addresses, response to a pre-restart initiation; responses whose receiver is replaced (MAC1 recomputed) by every "
+            "index the device ever issued for the peer (session indices in next/current/previous, deleted ones) while a new initiation is outstanding; "
+            "4..12 goroutines calling SendHandshakeInitiation at once (48+ rounds): exactly one initiation may leave; device-emitted timestamps across a restart only in "
             "the dedicated F7 scenario; non-trivial = scenario with at least one accepted and one inert handshake message; distinct by content hash")
     assumptions = ["messages whose MAC1 does not verify (or that fail the size/type gate) must be silent and inert under load too; for messages with a "
                    "valid MAC1 the no-reply clauses are for a device not under load (under load the cookie reply is C10's business and is only mirrored, not judged)",
@@ -87,6 +89,8 @@ class Prop:
             "tai64n_stamp_cases": meta.get("tai_cases", 0), "tai64n_after_cases": meta.get("after_cases", 0),
             "handshake_messages_injected": sum(c["accepted"] + c["inert"] for c in cases),
             "handshake_messages_accepted": sum(c["accepted"] for c in cases),
+            "concurrent_initiation_rounds": sum(1 for c in cases for o in (c.get("obs") or []) if o.get("op") == "burst" and c["gen"] == "concurrent-initiations"),
+            "concurrent_initiation_rounds_with_more_than_one_initiation": sum(1 for c in cases for o in (c.get("obs") or []) if o.get("op") == "burst" and o.get("inits", 0) > 1),
             "scenarios_by_family": {g: sum(1 for c in cases if c["gen"] == g) for g in sorted({c["gen"] for c in cases})},
         })
         return files, cases
@@ -153,9 +157,14 @@ class Prop:
         upto = case["steps"][: (ex[k] + 1 if k < len(ex) else len(case["steps"]))]
         step = upto[-1] if upto else {}
         if clause == 6:
-            # two initiations of one peer with a restart in between, no newer cause: design finding F7
-            tuns = [i for i, s in enumerate(upto) if s["op"] == "tun"]
-            if len(tuns) >= 2 and any(s["op"] == "restart" for s in upto[tuns[-2]:tuns[-1]]):
+            # triggers of device initiations: TUN packets and (concurrent) SendHandshakeInitiation calls
+            trig = [i for i, s in enumerate(upto) if s["op"] in ("tun", "burst")]
+            restart_between = len(trig) >= 2 and any(s["op"] == "restart" for s in upto[trig[-2]:trig[-1]])
+            if step.get("op") == "burst" and step.get("k", 1) > 1 and not restart_between:
+                # several callers of SendHandshakeInitiation got past the RekeyTimeout spacing together
+                return "concurrent-initiations-equal-timestamps"
+            if restart_between:
+                # two initiations of one peer with a restart in between, no newer cause: design finding F7
                 return "equal-timestamps-after-restart"
             return "emitted-timestamps-not-increasing-without-restart"
         m = step.get("msg") or {}
